@@ -1,5 +1,7 @@
 """C11 — subnetting, supernetting and stepping follow CIDR arithmetic.
-Ops: subnet N q count|- limit ; supernet N q ; next N k ; prev N k ; iadd N k ; isub N k ; hosts N limit"""
+Ops: subnet N q count|- limit ; supernet N q ; next N k ; prev N k ; iadd N k ; isub N k ; hosts N limit ;
+subtake N q count|- limit (islice with the EXACT limit, 0 included) ; iaddT / isubT / nextT / prevT N k (the same four
+steps on an instrumented IPNetwork subclass whose __setattr__ logs every store, per object)"""
 import itertools
 from common import Case, W, value_classes, rand_value, errname, plist, tf, optint
 import common
@@ -11,7 +13,11 @@ RULE = ('subnet: every (p, q) pair of IPv4 and every p with q in {p-1, p, p+1, p
         'islice(limit+1) (limit 4096 when the total is <= 4096, else 24) so no enumeration exceeds 4097 blocks; supernet: '
         'all q <= p of IPv4, q in {0, p-2, p-1, p, random} of IPv6; next/previous/+=/-=: steps {0, +-1, +-2, the largest '
         'step that still fits, one more, random, huge} at both ends of the space; hosts: every prefix of both families, '
-        'bottom/top/random blocks. Outside the property (not generated): subnet(q > width), supernet(q > p or q < 0). '
+        'bottom/top/random blocks; subtake: one (value, count) per (p, q) pair read through islice with the exact limit '
+        '0 (three in five), 1, 2 or 3 - at limit 0 nothing of the generator body runs, bad counts included; iaddT / isubT / '
+        'nextT / prevT: the stepping inputs again on a subclass of IPNetwork that logs every attribute store with the '
+        'object stored into (receiver / any other object of the class made during the call), compared with the '
+        'statement-level event log of the model. Outside the property (not generated): subnet(q > width), supernet(q > p or q < 0). '
         'non-trivial = distinct case whose implementation output is not an error')
 LIMIT_SMALL = 24
 LIMIT_FULL = 4096
@@ -46,8 +52,13 @@ def corpus():
         out.append(_mk('hosts', *ip(s), LIMIT_SMALL))
     for s, k in (('192.0.2.0/28', 1), ('192.0.2.0/28', 15), ('255.255.255.240/28', 1), ('0.0.0.0/28', -1),
                  ('0.0.0.16/28', -1), ('0.0.0.0/0', 1), ('0.0.0.0/0', 0), ('::/0', -1), ('ffff:ffff:ffff:ffff:ffff:ffff:ffff:ffff/128', 1)):
-        for kind in ('next', 'prev', 'iadd', 'isub'):
+        for kind in ('next', 'prev', 'iadd', 'isub', 'nextT', 'prevT', 'iaddT', 'isubT'):
             out.append(_mk(kind, *ip(s), k))
+    # audit 2b finding 2: nothing of a generator body runs before the first next()
+    for cnt in (99, 0, -1, None, 2):
+        for limit in (0, 1):
+            out.append(_mk('subtake', *ip('10.0.0.0/24'), 25, cnt, limit))
+    out.append(_mk('subtake', *ip('10.0.0.0/24'), 23, None, 0))
     return out
 
 
@@ -84,6 +95,8 @@ def generate(rng, tier):
                         total = mx if cnt is None else cnt
                         limit = LIMIT_FULL if (total <= 512 or (total <= LIMIT_FULL and rng.random() < 0.08)) else LIMIT_SMALL
                         cases.append(_mk('subnet', ver, v, p, q, cnt, limit))
+                for v in _values(rng, w, p, 1):
+                    cases.append(_mk('subtake', ver, v, p, q, rng.choice(_counts(rng, mx)), rng.choice((0, 0, 0, 1, 2, 3))))
             # ---- supernet
             if ver == 4:
                 sq = list(range(0, p + 1))
@@ -105,6 +118,11 @@ def generate(rng, tier):
                     if kind in ('prev', 'isub') and rng.random() < 0.7:
                         k = -k                      # mirror: keep the interesting boundaries for '-' too
                     cases.append(_mk(kind, ver, v, p, k))
+                for k in rng.sample(ks, 4):
+                    kind = rng.choice(('nextT', 'prevT', 'iaddT', 'isubT'))
+                    if kind in ('prevT', 'isubT') and rng.random() < 0.7:
+                        k = -k
+                    cases.append(_mk(kind, ver, v, p, k))
             # ---- hosts
             for v in _values(rng, w, p, (8 if w - p <= 3 else 2) * mult):      # the /30../32 and /126../128 conventions
                 cases.append(_mk('hosts', ver, v, p, LIMIT_FULL if w - p <= 8 else LIMIT_SMALL))
@@ -115,10 +133,91 @@ def _show(n):
     return '%d:%d/%d' % (n.version, n.value, n.prefixlen)
 
 
+_SPY = {}
+
+
+def _spy_net(ver, v, p):
+    """an IPNetwork of an instrumented subclass: every store into a slot of ANY object of the class
+    (`x._value = ...`, `x._prefixlen = ...`, `x._module = ...`) is logged together with the object stored into
+    (the log keeps the objects alive, so identities are not reused).  next() / previous() build their private
+    copy with `self.__class__(...)`, so the copy is of the instrumented class too and its stores are seen."""
+    if 'cls' not in _SPY:
+        log = []
+
+        class SpyNet(IPNetwork):
+            __slots__ = ()
+
+            def __setattr__(self, k, val):
+                log.append((self, k, val))
+                IPNetwork.__setattr__(self, k, val)
+        _SPY['cls'], _SPY['log'] = SpyNet, log
+    n = _SPY['cls']((v, p), version=ver)
+    del _SPY['log'][:]
+    return n, _SPY['log']
+
+
+def _events(recv, log):
+    """the stores of a call in their order: `r:` into the receiver, `c:` into the first other object of the class
+    (`c2:`, ... further ones); `wv:<int>` = `_value`, `wp:<int>` = `_prefixlen`, `wm` = `_module`.  The two
+    `= None` placeholders of BaseIP.__init__ in a NEW object are not events (the model's `copied` event is the
+    constructor's three real stores)."""
+    labels = {}
+    out = []
+    for obj, k, val in log:
+        if obj is recv:
+            lab = 'r'
+        else:
+            if val is None:
+                continue
+            if id(obj) not in labels:
+                labels[id(obj)] = 'c' if not labels else 'c%d' % (len(labels) + 1)
+            lab = labels[id(obj)]
+        if k == '_value':
+            out.append('%s:wv:%s' % (lab, val if isinstance(val, int) else '?'))
+        elif k == '_prefixlen':
+            out.append('%s:wp:%s' % (lab, val if isinstance(val, int) else '?'))
+        elif k == '_module':
+            out.append(lab + ':wm')
+        else:
+            out.append('%s:w:%s' % (lab, k))
+    return out
+
+
 def impl(c):
     a = c.args
     kind, ver, v, p = a[:4]
+    if kind in ('iaddT', 'isubT', 'nextT', 'prevT'):
+        recv, log = _spy_net(ver, v, p)
+        k = a[4]
+        flag = ''
+        try:
+            if kind == 'iaddT':
+                r = recv
+                r += k
+            elif kind == 'isubT':
+                r = recv
+                r -= k
+            elif kind == 'nextT':
+                r = recv.next(k)
+            else:
+                r = recv.previous(k)
+            ev = _events(recv, list(log))      # before anything below looks at the objects
+            if (r is recv) != (kind in ('iaddT', 'isubT')):
+                flag = '!harness:returned-%s' % ('other-object' if kind in ('iaddT', 'isubT') else 'receiver')
+            res = _show(r)
+        except Exception as e:
+            ev = _events(recv, list(log))
+            res = '!' + errname(e)
+        del log[:]
+        return flag + res + '~' + _show(recv) + '~' + ','.join(ev)
     n = common.make_net(ver, v, p)
+    if kind == 'subtake':
+        q, cnt, limit = a[4:]
+        try:
+            l = list(itertools.islice(n.subnet(q, count=cnt), limit))
+        except Exception as e:
+            return '!' + errname(e)
+        return plist(_show(x) for x in l)
     if kind == 'subnet':
         q, cnt, limit = a[4:]
         try:
@@ -187,6 +286,32 @@ def oracle(c, got):
                     assert blocks[-1][0] + step - 1 == last
                 exp = plist('%d:%d/%d' % (ver, b, q_) for b, q_ in blocks) + ' ' + tf(total > limit)
         return None if got == exp else 'subnet(%d, count=%s) gave %s, CIDR arithmetic gives %s' % (q, cnt, got[:300], exp[:300])
+    if kind == 'subtake':
+        q, cnt, limit = a[4:]
+        mx = 1 << max(q - p, 0)
+        total = mx if cnt is None else cnt
+        if q < p or limit == 0:
+            exp = '[]'           # limit 0: the generator body never starts, so nothing is checked either
+        elif not 1 <= total <= mx:
+            exp = '!value'
+        else:
+            step = 1 << (w - q)
+            exp = plist('%d:%d/%d' % (ver, first + i * step, q) for i in range(min(total, limit)))
+        return None if got == exp else 'list(islice(subnet(%d, count=%s), %d)) gave %s, expected %s' % (q, cnt, limit, got[:300], exp[:300])
+    if kind in ('iaddT', 'isubT', 'nextT', 'prevT'):
+        k = a[4]
+        new = first + k * size if kind in ('nextT', 'iaddT') else first - k * size
+        fits = 0 <= new and new + size - 1 <= m
+        recv = '%d:%d/%d' % (ver, v, p)
+        res = '%d:%d/%d' % (ver, new, p)
+        if kind in ('iaddT', 'isubT'):
+            # refused: IndexError, NO store, object as it was; accepted: exactly one store, of the new value
+            exp = '%s~%s~r:wv:%d' % (res, res, new) if fits else '!index~%s~' % recv
+        else:
+            # the receiver is never stored into; the copy is built (value F, prefix p, module) and then stepped
+            ctor = 'c:wv:%d,c:wp:%d,c:wm' % (first, p)
+            exp = '%s~%s~%s,c:wv:%d' % (res, recv, ctor, new) if fits else '!index~%s~%s' % (recv, ctor)
+        return None if got == exp else '%s(%d) gave %s, expected %s' % (kind, k, got[:300], exp[:300])
     if kind == 'supernet':
         q = a[4]
         if not 0 <= q <= p:
@@ -224,6 +349,13 @@ def repro(c):
         return "import itertools; " + n + "list(itertools.islice(n.subnet(%d, count=%s), %d))" % (a[4], a[5], a[6] + 1)
     if kind == 'supernet':
         return n + "n.supernet(%d)" % a[4]
+    if kind == 'subtake':
+        return "import itertools; " + n + "list(itertools.islice(n.subnet(%d, count=%s), %d))" % (a[4], a[5], a[6])
+    if kind in ('iaddT', 'isubT', 'nextT', 'prevT'):
+        call = {'iaddT': 'n += %d', 'isubT': 'n -= %d', 'nextT': 'n.next(%d)', 'prevT': 'n.previous(%d)'}[kind] % a[4]
+        return ("log = []; S = type('S', (IPNetwork,), {'__slots__': (), '__setattr__': lambda s, k, x: (log.append((id(s), k, x)), "
+                "IPNetwork.__setattr__(s, k, x))[1]}); n = S((%d, %d), version=%d); del log[:]; %s   # then look at log, n"
+                % (v, p, ver, call))
     if kind == 'next':
         return n + "n.next(%d), n" % a[4]
     if kind == 'prev':
